@@ -39,7 +39,7 @@ def expected_step(prior, cur, X, sw, eps, relevance, alpha, squared=True):
 def run(chk):
     chk.prove()
     r = gen.rng(chk.seed, "C05")
-    n_cases = 48 if chk.tier == "quick" else 400
+    n_cases = 48 if chk.tier == "quick" else 2000
     terms = []
     eps = float(np.finfo(float).eps)
     for i in range(n_cases):
